@@ -50,7 +50,15 @@ func (r *yieldRewriter) rewriteRanges(block *ast.BlockStmt) {
 			case *types.Array:
 				// typing workaround for abstract generic array iter
 				// type can't be infered from array, so we wrap it with slice
-				typeInfered := &ast.SliceExpr{X: n.X}
+				x := n.X
+				if tv, ok := r.pkg.TypeInfo().Types[n.X]; ok && !tv.Addressable() {
+					// an array value (e.g. the result of a call) can't be sliced,
+					// bind it to a variable first
+					arr := X.Ident(r.gensym(cstArrayVar))
+					c.InsertBefore(X.Define(arr, n.X))
+					x = arr
+				}
+				typeInfered := &ast.SliceExpr{X: x}
 				do(cstNewSliceIter, typeInfered)
 			case *types.Slice:
 				do(cstNewSliceIter, n.X)
